@@ -126,6 +126,10 @@ const char* block_reason(int tid);
 // predicate is false" from "sleeping although the predicate is true" (a lost
 // wake-up): a correct waiter re-checks and goes back to sleep.
 bool poke_cond_waiter(int tid);
+// threads created by the code under test through pthread_create that have not
+// finished yet
+int live_created_threads();
+std::string live_created_thread_names();
 int self();
 int nthreads();
 
